@@ -114,9 +114,17 @@ def extract(config, repo=None, force=False):
             })
             env.pop("RUSTC_WRAPPER", None)
             t0 = time.time()
-            r = subprocess.run(
-                ["cargo", "+nightly", "check", "--offline", "--lib", "--message-format=short"] + CONFIGS[config],
-                cwd=repo, env=env, stdout=subprocess.PIPE, stderr=subprocess.STDOUT, text=True)
+            cmd = ["cargo", "+nightly", "check", "--offline", "--lib", "--message-format=short"] + CONFIGS[config]
+            r = subprocess.run(cmd, cwd=repo, env=env, stdout=subprocess.PIPE, stderr=subprocess.STDOUT, text=True)
+            if r.returncode != 0 and "error[E" not in r.stdout and "error: could not compile" not in r.stdout:
+                # not a compile error of the crate (resource hiccup, interrupted build): one clean retry
+                time.sleep(2)
+                if os.path.isdir(fp):
+                    for e in os.listdir(fp):
+                        if e.startswith("futures-concurrency-"):
+                            shutil.rmtree(os.path.join(fp, e), ignore_errors=True)
+                r = subprocess.run(cmd, cwd=repo, env=env, stdout=subprocess.PIPE, stderr=subprocess.STDOUT, text=True)
+                info["retried"] = True
             info["extract_s"] = round(time.time() - t0, 2)
             if r.returncode != 0:
                 raise Inconclusive("cargo check failed for config %s:\n%s" % (config, r.stdout[-6000:]))
